@@ -90,10 +90,11 @@ ATOMS = [
     ("mask", "WITH MASKING POLICY a.b.c"), ("mask", "MASKING POLICY a.b.c"), ("index", "INDEX"), ("tz", "WITH TIME ZONE"), ("tz", "WITHOUT TIME ZONE"),
     ("enforced", "ENFORCED"), ("enforced", "NOT ENFORCED"), ("order", "ORDER"), ("order", "NOORDER"), ("unsigned", "UNSIGNED"), ("charset", "CHARACTER SET utf8"),
 ]
-# atoms that combine freely (any order, any neighbour) in the documented core fragment; used by the random scripts
+# atoms of the documented core fragment (C01/C02): combined in ordered pairs and, minus CHECK, by the random scripts
 CORE_ATOMS = [a for a in ATOMS if a[0] in ("null", "default", "key", "unique", "ref", "check", "comment") and not a[1].startswith(("CONSTRAINT nn", "FOREIGN KEY"))]
-# CHECK expressions interact with neighbouring items (angle-bracket types, keyword-shaped names, following statements: C02/C03/C09 territory), so the
-# random scripts use them only through RANDOM_ATOMS / RANDOM_TABLE_CONSTRAINTS below; they are covered one at a time by the enumerated sets
+# CHECK expressions interact with neighbouring items (angle-bracket types, keyword-shaped or quoted names, a following ALTER: the table is lost or the
+# script raises - C02/C03/C09/C16 territory, not a shape question), so the random scripts leave them out (RANDOM_ATOMS / RANDOM_TABLE_CONSTRAINTS);
+# the enumerated sets cover every CHECK form one at a time and in ordered pairs with the other core options
 RANDOM_ATOMS = [a for a in CORE_ATOMS if a[0] != "check"]
 
 
@@ -112,8 +113,7 @@ class Tab:
         self.clauses = []   # texts after the closing parenthesis
         self.after = []     # follow-up statements (ALTER / CREATE INDEX) as text
         self.names = []     # declared column names after the follow-ups
-        self.tags = set()
-        self.dropped = False
+        self.layout = 0
 
     def full(self):
         return "%s.%s" % (self.schema, self.name) if self.schema else self.name
@@ -460,7 +460,7 @@ def _plan(ck, i, level="std", extra=()):
     """which (normalize_names, [(mode, group_by_type)]) a case is evaluated under.
     quick  std : one normalize_names value (alternating), default mode + one rotating mode (all 15 are reached as i varies) with opposite group_by_type, owner modes of the construct
            wide: one normalize_names value, all 15 modes with alternating group_by_type
-    thorough std : both normalize_names values, default + 3 rotating modes + owner modes, both group_by_type; every 3rd case: wide
+    thorough std : both normalize_names values, default + 2 rotating modes + owner modes, both group_by_type; every 4th case: wide
              wide: both normalize_names values x 15 modes x both group_by_type"""
     odd = bool(i % 2)
     r = [MODES[(2 * i + j) % len(MODES)] for j in (1, 2, 3)]
@@ -468,9 +468,9 @@ def _plan(ck, i, level="std", extra=()):
         if level == "wide":
             return [(odd, [(m, bool((i + j) % 2)) for j, m in enumerate(MODES)])]
         return [(odd, _uniq([("sql", odd), (r[0], not odd)] + [(m, odd) for m in extra]))]
-    if level == "wide" or i % 3 == 0:
+    if level == "wide" or i % 4 == 0:
         return [(n, [(m, g) for m in MODES for g in (False, True)]) for n in (False, True)]
-    return [(n, [(m, g) for m in _uniq(["sql"] + r + list(extra)) for g in (False, True)]) for n in (False, True)]
+    return [(n, [(m, g) for m in _uniq(["sql"] + r[:2] + list(extra)) for g in (False, True)]) for n in (False, True)]
 
 
 # ------------------------------------------------------------------------------------------------ generators
@@ -499,8 +499,7 @@ def gen_column_atoms(ck, run):
             i += 1
     pairs = [(a, b) for a in range(len(CORE_ATOMS)) for b in range(len(CORE_ATOMS)) if CORE_ATOMS[a][0] != CORE_ATOMS[b][0]
              and not ({CORE_ATOMS[a][0], CORE_ATOMS[b][0]} == {"null", "key"})]
-    if ck.quick():
-        pairs = sorted(ck.rnd.sample(pairs, 120))
+    pairs = sorted(ck.rnd.sample(pairs, 120 if ck.quick() else 1200))
     for a, b in pairs:
         pos = (a + b) % 3
         t = _base_table()
@@ -527,7 +526,7 @@ def gen_primary_keys(ck, run):
             i += 1
     marked = [m for m in patterns if any(m)]
     for fi, form in enumerate(PK_FORMS):
-        for pi, marks in enumerate(marked if not ck.quick() else marked[fi::9]):
+        for pi, marks in enumerate(marked[fi % 2::2] if not ck.quick() else marked[fi::9]):
             case = ["lower", "title"][(fi + pi) % 2]
             t = _base_table(ncols=4)
             sel = rnd.sample(range(4), len(marks))
@@ -668,13 +667,13 @@ def gen_random_scripts(ck, run):
     """scripts of 1-4 tables x 1-12 columns (every 10th: one table of 13-25, thorough 13-40 columns) with random options of the core fragment, table
     constraints, a clause, follow-up ALTER / INDEX statements and other entities / unsupported statements in between"""
     rnd = ck.rnd
-    n = 300 if ck.quick() else 1000
+    n = 300 if ck.quick() else 600
     for i in range(n):
         items = random_script(rnd, i % 10 == 0, 25 if ck.quick() else 40)
         script, exp = render_script(items, rnd.choice(["\n", "\n\n"]))
         if ck.quick():
             plan = _plan(ck, i)
-        elif i % 10 == 5:
+        elif i % 20 == 5:
             plan = _plan(ck, i, "wide")
         else:
             plan = [(bool(i % 2), _plan(ck, 3 * i + 1)[0][1])]
@@ -720,6 +719,6 @@ def check(ck):
         bound = ("per case one normalize_names value, default mode + one rotating mode (+ owner mode) with opposite group_by_type, each with and without json_dump (all 15 modes for create forms, every 4th clause, "
                  "other entities alone, DROP, every 3rd empty script); option atoms at 2 of 3 positions, 120 ordered option pairs, %d random scripts of 1-4 tables x 1-25 columns" % nrand)
     else:
-        bound = ("both normalize_names values x (default + 3 rotating + owner modes; every 3rd case and all wide sets: all 15 modes) x both group_by_type x json_dump on an independent parser object; option atoms at 3 "
-                 "positions, all ordered pairs of core options, every marker pattern in 6 PRIMARY KEY forms, %d random scripts of 1-4 tables x 1-40 columns, corpus under all 15 modes" % nrand)
+        bound = ("both normalize_names values x (default + 2 rotating + owner modes; every 4th case and all wide sets: all 15 modes) x both group_by_type x json_dump on an independent parser object; option atoms at 3 "
+                 "positions, 1200 ordered pairs of core options, every marker pattern in 6 PRIMARY KEY forms, %d random scripts of 1-4 tables x 1-40 columns, corpus under all 15 modes" % nrand)
     return rule, bound
